@@ -6,10 +6,19 @@
 #include "sched/explore.hpp"
 using namespace FIX8;
 
+// The stream behaves like the file stream of FileLogger: what is inserted sits in a buffer and reaches the device only when the
+// buffer is flushed or full.  "Written" means: reached the device (a line still in the buffer when stop() returns is not in the file).
+struct DevBuf : std::streambuf {
+	char buf[4096]; std::string dev;
+	DevBuf() { setp(buf, buf + sizeof buf); }
+	void drain() { dev.append(pbase(), pptr() - pbase()); setp(buf, buf + sizeof buf); }
+	int_type overflow(int_type c) override { drain(); if (c != traits_type::eof()) { *pptr() = (char)c; pbump(1); } return 0; }
+	int sync() override { drain(); return 0; }
+};
 struct CapLogger : Logger {
-	std::ostringstream os;
-	CapLogger() : Logger(LogFlags() << sequence, Levels(bitsum(Info, Error))) {}
-	std::ostream& get_stream() const override { return const_cast<std::ostringstream&>(os); }
+	DevBuf db; std::ostream os;
+	CapLogger() : Logger(LogFlags() << sequence, Levels(bitsum(Info, Error))), os(&db) {}
+	std::ostream& get_stream() const override { return const_cast<std::ostream&>(os); }
 };
 
 static int K = 2, LINES = 2, MODE = 0;	// MODE 0: stop after join; 1: stop while producers run
@@ -43,9 +52,9 @@ static std::string body()
 	if (MODE == 0) for (int i = 0; i < K; ++i) pthread_join(pt[i], 0);
 	const long stop_called = ++gseq;
 	lg->stop();
-	const std::string at_stop = lg->os.str();
+	const std::string at_stop = lg->db.dev;
 	if (MODE == 1) for (int i = 0; i < K; ++i) pthread_join(pt[i], 0);
-	const std::string later = lg->os.str();
+	const std::string later = lg->db.dev;
 	// ---- oracle
 	std::vector<std::string> lines; { std::istringstream is(at_stop); std::string l; while (std::getline(is, l)) lines.push_back(l); }
 	std::string verdict;
